@@ -32,6 +32,7 @@ type PatSpec struct {
 	Auths    []string `json:"auths,omitempty"`
 	Apply    string   `json:"apply,omitempty"`    // "", "ok", "fail", "nochange"
 	Listen   int      `json:"listen,omitempty"`   // number of listeners
+	Nest     bool     `json:"nest,omitempty"`     // listener 0 emits a nested custom event on the same resource
 }
 
 // Op is one scripted operation of an actor.
@@ -437,6 +438,10 @@ func (e *Engine) listener(pi, li int, ev *res.Event) {
 		d = digest(ev.Payload)
 	}
 	e.H.Rec("listener", "", pi, fmt.Sprintf("%d %s %s %s", li, ev.Name, ev.Resource.ResourceName(), d))
+	if li == 0 && e.Case.Pats[pi].Nest && ev.Name != "nested" {
+		// a listener reacting with an event of its own on the same resource
+		ev.Resource.Event("nested", map[string]interface{}{"n": 0})
+	}
 }
 
 func digest(vs ...interface{}) string {
@@ -627,7 +632,7 @@ func (e *Engine) reply(s *Submission, r res.Resource, kind, what string) {
 			r.(okT).OK(map[string]interface{}{"id": s.Op.ID})
 		}
 	case "ok":
-		r.(okT).OK(map[string]interface{}{"id": s.Op.ID, "s": "q\"uo\\te\n<é>"})
+		r.(okT).OK(map[string]interface{}{"id": s.Op.ID, "s": "q\"uo\\te\n<é>", "t": model.TrickyFor(s.Op.ID)})
 	case "oknil":
 		r.(okT).OK(nil)
 	case "model":
@@ -641,7 +646,7 @@ func (e *Engine) reply(s *Submission, r res.Resource, kind, what string) {
 	case "notfound":
 		r.(interface{ NotFound() }).NotFound()
 	case "err":
-		r.(errT).Error(&res.Error{Code: "test.err", Message: "Err " + strconv.Itoa(s.Op.ID), Data: map[string]int{"x": 1}})
+		r.(errT).Error(&res.Error{Code: "test.err", Message: "Err " + strconv.Itoa(s.Op.ID) + model.TrickyFor(s.Op.ID), Data: map[string]int{"x": 1}})
 	case "plainerr":
 		r.(errT).Error(errors.New("plain " + strconv.Itoa(s.Op.ID)))
 	case "granted":
@@ -659,11 +664,11 @@ func (e *Engine) reply(s *Submission, r res.Resource, kind, what string) {
 	case "invparams":
 		r.(interface{ InvalidParams(string) }).InvalidParams("")
 	case "invparamsmsg":
-		r.(interface{ InvalidParams(string) }).InvalidParams("bad params " + strconv.Itoa(s.Op.ID))
+		r.(interface{ InvalidParams(string) }).InvalidParams("bad params " + strconv.Itoa(s.Op.ID) + model.TrickyFor(s.Op.ID))
 	case "invquery":
 		r.(interface{ InvalidQuery(string) }).InvalidQuery("")
 	case "invquerymsg":
-		r.(interface{ InvalidQuery(string) }).InvalidQuery("bad query " + strconv.Itoa(s.Op.ID))
+		r.(interface{ InvalidQuery(string) }).InvalidQuery("bad query " + strconv.Itoa(s.Op.ID) + model.TrickyFor(s.Op.ID))
 	case "methodnotfound":
 		r.(interface{ MethodNotFound() }).MethodNotFound()
 	case "unmarshalable":
